@@ -25,6 +25,7 @@ SIG_DL = 'gridding-antimeridian-met-at-start-latitude'
 SIG_Z = 'gridding-zero-length-antimeridian-segment-nan'
 SIG_POLE = 'gridding-pole-intersection-latitude-out-of-range-nan'
 SIG_ILL = 'gridding-nearly-axis-parallel-segment-cancellation-excess'
+SIG_POLEX = 'gridding-antimeridian-crossing-latitude-overshoots-pole-nan'
 TINY = ['ulp', 1e-12, 4e-9, 1e-8, 1e-7]     # |dlat| or |dlon| of the nearly zonal / nearly meridional stream (rad)
 
 PI = math.pi
@@ -230,9 +231,11 @@ def attach_dists(geo, clip=False):
                 b.append(y)
                 owner.append((k, 'd'))
         ds = dist_many(a, b, clip)
-        dd = [[None, []] for _ in p['geom']]
-        for (k, kind), d in zip(owner, ds):
+        raw = dist_many(a, b, False) if clip else ds       # the code clips the sub-segment points only, not
+        dd = [[None, []] for _ in p['geom']]               # the trajectory points the segment length is taken from
+        for (k, kind), d, d0 in zip(owner, ds, raw):
             if kind == 'D':
+                d = d0
                 dd[k][0] = d
             else:
                 dd[k][1].append(d)
@@ -304,6 +307,7 @@ def legs_of_segment(case, j, bent=False):
         latx = A[0]
     else:
         latx = A[0] + (out_ - A[1]) / (lon_end - A[1]) * (B[0] - A[0])
+        latx = min(max(latx, min(A[0], B[0])), max(A[0], B[0]))
     return [(A, (latx, out_)), ((latx, in_), B)]
 
 
@@ -327,6 +331,8 @@ def expected_segment(case, j, bent=False):
     ds = dist_many([p['a'] for p in pieces], [p['b'] for p in pieces])
     Ds = dist_many([A for A, _ in legs], [B for _, B in legs])
     D = sum(Ds)
+    if D != D or any(d != d for d in ds):
+        raise RuntimeError(f'oracle: pyproj returned NaN for a piece of segment {j} of the oracle own geometry')
     for p, d in zip(pieces, ds):
         p['len'] = d
         p['share'] = d / D if D != 0 else None
@@ -504,12 +510,18 @@ def c04_oracle(case, out):
                       f'intersection coordinate computed as slope * line + intercept loses all its digits to cancellation, '
                       f'lands outside the segment, and variable {k} is gridded to {ratio:.4f} times its value (more than '
                       f'any chain of points of the segment can measure)',
-                      SIG_ILL if (not other and d <= 1e-13) else None))
+                      SIG_ILL if (not other and conditioning(case, j) >= 1e-3) else None))      # |d| below ~1e-11 rad
     if p_hits:
         j, k, vj = p_hits[0]
-        probs.append((f'segment {j} has an end point exactly on a pole: an intersection latitude computed from '
-                      f'slope/intercept leaves [-90, 90] degrees by rounding, the geodesic length is NaN and the value '
-                      f'{vj!r} of variable {k} is gridded to NaN', SIG_POLE if not other else None))
+        if len(legs_of_segment(case, j)) == 2:
+            probs.append((f'segment {j} crosses the antimeridian and ends exactly on a pole: the interpolated crossing '
+                          f'latitude lat0 + t * (lat1 - lat0) with t = 1 overshoots the pole by one rounding error, the '
+                          f'part lengths are NaN and the value {vj!r} of variable {k} is gridded to NaN',
+                          SIG_POLEX if not other else None))
+        else:
+            probs.append((f'segment {j} has an end point exactly on a pole: an intersection latitude computed from '
+                          f'slope/intercept leaves [-90, 90] degrees by rounding, the geodesic length is NaN and the '
+                          f'value {vj!r} of variable {k} is gridded to NaN', SIG_POLE if not other else None))
     if z_hits:
         j, k, vj = z_hits[0]
         probs.append((f'zero-length segment {j} across the antimeridian (same point given as -pi and +pi) variable {k}: '
